@@ -307,6 +307,14 @@ def _wrapper_code_table(f: Fn) -> Tuple[Dict[int, Tuple[str, Optional[str]]], Op
     return table, default
 
 
+def _vectorised_status(f, q) -> None:
+    """The statuses are written in one array operation (`self.status[positions] = status[mask]`): which code ends with which
+    status is then a matter of mask arithmetic, which this rule does not read."""
+    for s_ in series_stores(f.cfg, f.lf):
+        if s_.series == 'status' and isinstance(s_.value, ast.Subscript) and isinstance(s_.value.value, ast.Name) and s_.value.value.id in f.lf.locals:
+            raise Unknown(f'{q}: `{s_.node.label()[:60]}` records the statuses of all periods in one array operation: the status per error code is not read')
+
+
 def r4_code_tables(R, unit: FUnit) -> None:
     eo = fold_class_const(R.repo, FE, '_ERROR_OPTIONS')
     fo = fold_class_const(R.repo, FE, '_FAILURE_OPTIONS')
@@ -376,7 +384,16 @@ def r4_code_tables(R, unit: FUnit) -> None:
                 bound |= set(bound_on_edge(f.cfg, n.id, lab))
             if ecv in bound:
                 co |= {x for x in bound if x != ecv}
-        bools = sorted(x for x in co if any(isinstance(a_, ast.Name) and a_.id == x for t in f.tests() for (a_, _tr) in __import__('fsa.match', fromlist=['nnf_atoms']).nnf_atoms(t.ast, True)))
+        def _bool_operands(t_):
+            # names standing as a truth value in a test: the test itself, or an operand of and / or / not at any depth
+            if isinstance(t_, ast.Name):
+                yield t_.id
+            elif isinstance(t_, ast.BoolOp):
+                for v_ in t_.values:
+                    yield from _bool_operands(v_)
+            elif isinstance(t_, ast.UnaryOp) and isinstance(t_.op, ast.Not):
+                yield from _bool_operands(t_.operand)
+        bools = sorted(x for x in co if any(x in set(_bool_operands(t.ast)) for t in f.tests()))
         doms = {'errors': ['raise', 'skip', 'ignore', 'replace'], ecv: [0] + all_codes + [unknown_code]}
         for b_ in bools:
             doms[b_] = [True, False]
@@ -454,6 +471,8 @@ def r4_code_tables(R, unit: FUnit) -> None:
                 st_s = [s_ for s_ in series_stores(f.cfg, f.lf) if s_.node.id in touched and s_.series == 'status' and enum_value_ref(s_.value) == 'SKIPPED']
                 skipped_flag = any(isinstance(f.cfg.nodes[i].ast, ast.Assign) and enum_value_ref(f.cfg.nodes[i].ast.value) == 'SKIPPED' for i in touched) or \
                     any(isinstance(x, ast.Attribute) and text(x) == 'SolutionStatus.SKIPPED.value' for i in touched if f.cfg.nodes[i].ast is not None for x in ast.walk(f.cfg.nodes[i].ast))
+                if not (st_s or skipped_flag):
+                    _vectorised_status(f, q)
                 R.check(bool(st_s) or skipped_flag, q, f'code-status:{cname}', f'{cname} ({code}) records status S', f'{cname} ({code}) does not record SolutionStatus.SKIPPED', where=f.fi.where)
                 continue
             R.check(got == {want}, q, f'code-exception:{cname}:{sorted(got)}',
@@ -461,6 +480,8 @@ def r4_code_tables(R, unit: FUnit) -> None:
                     f'error code {code} ({cname}) leads to {sorted(got)} from {m}() but the pure-Python engine raises {want} in the same situation', where=f.fi.where)
             if cname == 'numerical_error_raise':
                 st_e = [s_ for s_ in series_stores(f.cfg, f.lf) if s_.node.id in touched and s_.series == 'status' and enum_value_ref(s_.value) == 'ERROR']
+                if not st_e and m != '_evaluate':
+                    _vectorised_status(f, q)
                 R.check(bool(st_e) or m == '_evaluate', q, f'code-status:{cname}', f'{cname} ({code}) records status E before raising', f'{cname} ({code}) does not record SolutionStatus.ERROR',
                         where=f.fi.where)
         # a mode-specific code under another mode is not acted on as if it were expected
